@@ -21,7 +21,7 @@ from fractions import Fraction
 from ..engine.normalize import inline_helpers, positional
 from ..engine.report import AnalysisError, Run
 from ..engine.resolver import Program, body_walk
-from ..engine.sympath import sym_block, sym_paths
+from ..engine.sympath import follower, sym_block, sym_paths
 from ..engine.terms import Poly, TermEval
 from ..engine.util import method_call, u
 
@@ -42,7 +42,7 @@ def _is_zero_td(e: ast.AST) -> bool:
 def check_align(run: Run, prog: Program) -> None:  # noqa: C901
     fn = prog.func(f"{RES}._calculate_window_end")
     run.analysed(fn.qual)
-    paths = sym_paths(inline_helpers(prog, fn))
+    paths = sym_paths(inline_helpers(prog, fn), follow=follower(prog, fn))
     rets = [p for p in paths if p.exit == "return"]
     if len(rets) < 2:
         raise AnalysisError(f"{fn.qual}: expected several return paths, found {len(rets)}")
@@ -142,7 +142,7 @@ def check_align(run: Run, prog: Program) -> None:  # noqa: C901
     run.analysed(init.qual)
     cfgname = init.params[1]
     periods = (PER, f"{cfgname}.resampling_period")
-    for p in sym_paths(inline_helpers(prog, init)):
+    for p in sym_paths(inline_helpers(prog, init), follow=follower(prog, init)):
         if p.exit == "raise":
             continue
         where = dict(node=init.node, file=init.file, path=p.describe())
@@ -151,7 +151,10 @@ def check_align(run: Run, prog: Program) -> None:  # noqa: C901
         ok = ncalls == 1 and u(wr.get("self._window_end")) == f"{CWE}[0]" and u(wr.get("self._config")) == cfgname
         run.check(ok, "C07.ALIGN", init.qual, "self._window_end = first result of _calculate_window_end()",
                   "the initial window end is not the computed aligned one", **where)
-        tick = wr.get("self._timer._next_tick_time")
+        # the timer object may be built and aligned before it is stored: `X._next_tick_time = …` counts when X
+        # denotes what `self._timer` receives
+        timer_val = u(wr.get("self._timer"))
+        tick = wr.get("self._timer._next_tick_time") or (wr.get(f"{timer_val}._next_tick_time") if timer_val else None)
         ok = isinstance(tick, ast.Call) and u(tick.func) == "_to_microseconds" and len(tick.args) == 1 and not tick.keywords
         if ok:
             x = TermEval().ev(tick.args[0])  # type: ignore[union-attr]
